@@ -194,6 +194,8 @@ class ManifestContext:
             period.start = start
             self.periods.append(period)
             start += period.duration
+        # the presentation lasts as long as all of its Periods
+        self.mediaDuration = start
 
     def create_all_live_periods(self,
                                 multi_period: models.MultiPeriodStream) -> None:
